@@ -112,7 +112,6 @@ pub struct State {
     pub panicked: bool,
     /// a panic has been raised and not yet been caught by `guard`
     pub in_flight: bool,
-    pub out: Option<std::io::BufWriter<std::io::Stdout>>,
 }
 
 struct Global(UnsafeCell<State>);
@@ -127,8 +126,12 @@ static ST: Global = Global(UnsafeCell::new(State {
     panic_msg: String::new(),
     panicked: false,
     in_flight: false,
-    out: None,
 }));
+
+type Out = std::io::BufWriter<std::io::Stdout>;
+struct GlobalOut(UnsafeCell<Option<Out>>);
+unsafe impl Sync for GlobalOut {}
+static OUT: GlobalOut = GlobalOut(UnsafeCell::new(None));
 
 #[inline]
 pub fn st() -> &'static mut State {
@@ -138,8 +141,9 @@ pub fn st() -> &'static mut State {
 
 /// the buffered standard output (global so that the panic hook can flush it before an abort)
 #[inline]
-pub fn out() -> &'static mut std::io::BufWriter<std::io::Stdout> {
-    st().out
+pub fn out() -> &'static mut Out {
+    // single-threaded; kept apart from `State` so that both can be used in one expression
+    unsafe { &mut *OUT.0.get() }
         .get_or_insert_with(|| std::io::BufWriter::with_capacity(1 << 16, std::io::stdout()))
 }
 
@@ -300,10 +304,9 @@ pub fn install_panic_hook() {
             // Save the completed lines and mark the line of this operation.
             use std::io::Write as _;
             s.in_flight = false;
-            if let Some(o) = s.out.as_mut() {
-                let _ = o.write_all(b"P:abort\n");
-                let _ = o.flush();
-            }
+            let o = out();
+            let _ = o.write_all(b"P:abort\n");
+            let _ = o.flush();
             return;
         }
         s.in_flight = true;
